@@ -24,6 +24,19 @@ def check(pid, category, text, note, technique, design_ref, thorough=True):
         CHECKS[pid]["thorough_cmd"] = "python3 checks/%s.py --tier thorough" % pid.lower()
 
 
+check("C17", "exploration",
+      "Matrix of (restricting feature, placement) cells decided on the real FeatureChecker: clock compared with a double "
+      "literal/variable/call/expression under < <= == >= > in either operand order, alone and at each of three conjunct "
+      "positions of guards and invariants; floating-point assignments at each update-list position; clock initialisers; "
+      "constant clock rates 2/3/2.5/0.5 at each conjunct position and reversed; dynamic templates; non-broadcast channels "
+      "(global, urgent, arrays, typedef, template-local, used); channel and process priorities - each instantiated "
+      "(explicitly and directly), uninstantiated, and in two declaration orders. Oracle: a method is reported supported only "
+      "if the generator's feature flag permits it; unused templates and declaration order do not change the verdict.",
+      "Only the statement's 'only if' direction and invariance clauses are demanded; variable-valued rates are not claimed "
+      "(the suite's rate_expression.xml fixes that they keep symbolic analysis). Only accepted models count.",
+      "bounded-exhaustive matrix enumeration on the real code against a reference feature oracle (generator flags)",
+      "DESIGN.md §3/C17")
+
 check("C18", "exploration",
       "Exhaustive enumeration of the real header on every int8_t interval x element (and every interval pair in the "
       "thorough tier) against set semantics computed in wider arithmetic, plus the full product of boundary grids for "
